@@ -2,12 +2,17 @@
 #![allow(dead_code)]
 #[macro_use]
 mod gamma;
+mod lockp;
 mod alpha;
 mod conc;
 mod damage;
 mod seq;
 mod shim;
 mod store;
+mod vecs;
+
+#[global_allocator]
+static ALLOC: vecs::Counting = vecs::Counting;
 
 use std::fs;
 use std::io::{BufRead, BufReader, Write};
@@ -67,6 +72,46 @@ fn main() {
             out.w.flush().unwrap();
             let _ = fs::remove_dir_all(&scratch);
             eprintln!("casharn seq: {n} scenarios, {} lines", out.lines);
+        }
+        "lockchild" => {
+            lockp::child_main(std::path::Path::new(&args[2]));
+        }
+        "lock" => {
+            let inp = arg(&args, "--in").expect("--in");
+            let outp = arg(&args, "--out").expect("--out");
+            let scratch = PathBuf::from(arg(&args, "--scratch").expect("--scratch"));
+            let shim_so = arg(&args, "--shim");
+            fs::create_dir_all(&scratch).unwrap();
+            let mut out = seq::Out { w: std::io::BufWriter::new(fs::File::create(&outp).unwrap()), lines: 0 };
+            for line in BufReader::new(fs::File::open(&inp).unwrap()).lines() {
+                let line = line.unwrap();
+                if line.trim().is_empty() {
+                    continue;
+                }
+                let sc: Value = serde_json::from_str(&line).unwrap();
+                lockp::run_lock_scenario(&sc, &scratch, &mut out, shim_so.as_deref());
+            }
+            out.w.flush().unwrap();
+            let _ = fs::remove_dir_all(&scratch);
+            eprintln!("casharn lock: {} lines", out.lines);
+        }
+        "vec" => {
+            let what = arg(&args, "--what").expect("--what");
+            let outp = arg(&args, "--out").expect("--out");
+            let scratch = PathBuf::from(arg(&args, "--scratch").expect("--scratch"));
+            let tier = arg(&args, "--tier").unwrap_or("quick".into());
+            let seed: u64 = arg(&args, "--seed").and_then(|s| s.parse().ok()).unwrap_or(1);
+            fs::create_dir_all(&scratch).unwrap();
+            let mut out = seq::Out { w: std::io::BufWriter::new(fs::File::create(&outp).unwrap()), lines: 0 };
+            match what.as_str() {
+                "range" => vecs::run_range(&scratch, &mut out, &tier, seed),
+                "blob" => vecs::run_blob(&scratch, &mut out, &tier, seed),
+                "codec" => vecs::run_codec(&scratch, &mut out, &tier, seed),
+                other => panic!("unknown --what {other}"),
+            }
+            out.w.flush().unwrap();
+            let _ = fs::remove_dir_all(&scratch);
+            eprintln!("casharn vec {what}: {} lines", out.lines);
         }
         _ => {
             eprintln!("usage: casharn seq --in scenarios.jsonl --out trace.ndjson --scratch DIR [--shard i/n]");
